@@ -87,8 +87,10 @@ def run(ck, models, tier):
                 containers.add(cont)
                 cf, owner = container_field(cont)
                 inj_, field_, idx_, kind_ = injector_adt(tm, g.adt)
-                ck.ob("R2.4", "%s/stored-in-the-injector" % rn, tm.target, cf is not None and cf == field_,
-                      "the guard is pushed into %s (expected the injector's container `%s`)" % (fmt(cont, 5), field_), where(pev))
+                want = [n_ for a_, n_, i_ in container_chain(tm, g.adt)]
+                got = container_names(cont)
+                ck.ob("R2.4", "%s/stored-in-the-injector" % rn, tm.target, bool(got) and got == want[:len(got)] or got == want,
+                      "the guard is pushed into %s (field path %s; the injector's container is %s)" % (fmt(cont, 5), got, want), where(pev))
                 eev, _, edst, ereal, alias = entries[0]
                 reads = [e for e in v.trace if e.kind == "raw_read" and e.idx < eev.idx]
                 rd = [e for e in reads if same_expr(e.extra["src"].e, ereal.e)]
@@ -132,17 +134,17 @@ def run(ck, models, tier):
                       "bytes, then the second guard writes back the *first patch* it had saved — after drop the function still jumps to a "
                       "trampoline that has been unmapped."), wh)
             # field order: nothing to check here (C04 R4.5 covers lock-last)
-        # ---------------- R2.4 guards stay in the container until teardown: outside the injector's destructor it is append-only
+        # ---------------- R2.4 guards stay in the container until teardown: outside the owners' destructors it is append-only
         if inj:
-            dfn_ = [p_ for adt_, p_ in tm.drop_impls() if adt_ == inj]
-            muts = scans.container_mutations(tm.facts, inj, idx, exclude_fns=tuple(dfn_))
-            for fn, what, line in muts:
+            muts = chain_mutations(tm, g.adt)
+            for fn, what, line, lvl in muts:
                 ck.ob("R2.4", "container-mutated-outside-teardown/%s/%s" % (short(fn), short(what)), tm.target, False,
-                      "%s applies %s to %s.%s: removing, replacing or reordering stored guards before the injector is dropped restores a "
-                      "function out of order (an earlier guard writes its saved bytes over a later patch) or never" % (fn, what, short(inj), field),
+                      "%s applies %s to %s: removing, replacing or reordering stored guards before the injector is dropped restores a "
+                      "function out of order (an earlier guard writes its saved bytes over a later patch) or never" % (fn, what, lvl),
                       "%s:%d" % (tm.facts.body(fn)["span"]["file"], line))
             ck.ob("R2.4", "container-append-only-until-teardown", tm.target, not muts,
-                  "%d non-append use(s) of `&mut %s.%s` outside its destructor" % (len(muts), short(inj), field))
+                  "%d non-append use(s) of `&mut` on the guards container (chain %s) outside destructors" % (
+                      len(muts), " -> ".join("%s.%s" % (short(a_), n_) for a_, n_, i_ in container_chain(tm, g.adt))))
         # ---------------- R2.4 who-may-call = {} for forgetting primitives
         sites = scans.forget_sites(tm.facts)
         for fn, name, t in sites:
